@@ -73,6 +73,7 @@ def gen_program(rng, cid, size, ops_un=None, ops_bin=None, remap_p=0.08, apply_p
     trees = [hx, hy, hz]      # non-constant handles
     consts = []
     vars_ = []
+    applied = {}
 
     def pick(allow_const=True):
         if allow_const and consts and rng.random() < 0.25:
@@ -114,10 +115,18 @@ def gen_program(rng, cid, size, ops_un=None, ops_bin=None, remap_p=0.08, apply_p
             trees.append(h)
         elif r < 0.18 + var_p + remap_p + apply_p and vars_:
             t, e = pick(False), pick()
+            v = rng.choice(vars_)
+            # nested applies of the SAME variable (inner binding must shadow the outer one)
+            if applied and rng.random() < 0.5:
+                v = rng.choice(sorted(applied))
+                t = rng.choice(applied[v])
+                if rng.random() < 0.5:
+                    e = pick()
             sz = S[t] * max(1, S[e])
             if sz > CAP:
                 continue
-            h = emit(f"apply {t} {rng.choice(vars_)} {e}", "tree", sz)
+            h = emit(f"apply {t} {v} {e}", "tree", sz)
+            applied.setdefault(v, []).append(h)
             trees.append(h)
         elif r < 0.55:
             op = rng.choice(ops_un)
